@@ -498,12 +498,14 @@ type worker struct {
 	R     string // <root>/r
 	srv   [2]*fakelfs.Server
 	fault *faultCtl
+	seqVerify bool // fault-sequence probe in which the server demands a verify callback
 }
 
 type envT struct {
 	scratch  string
 	binDir   string
 	pool     chan *worker
+	seqPool  chan *worker // worker worlds of the fault-sequence scenario
 	thorough bool
 	fileMode bool // remotes are file:// URLs, objects go through the standalone file transfer
 
@@ -511,6 +513,7 @@ type envT struct {
 	shaForm  map[string]string // git blob sha1 -> form
 	base     snap              // world with an empty local repository and two empty bare remotes
 
+	seq       *seqScenario       // fault sequences over the request stream of designated pushes (c03_seq_verif_test.go)
 	initSc    map[bool]*scenario // pseudo-scenario holding the transitions that build the initial states
 	initStats map[bool]*vx.Stats
 	initSeen  map[string]bool
